@@ -128,7 +128,7 @@ impl Property for C16 {
             Trailing::Random { len, seed } => {
                 let start = file.len();
                 file.resize(start + *len as usize, 0);
-                crate::gen::Rng::new(*seed).fill(&mut file[start..]);
+                crate::gen::Prng::new(*seed).fill(&mut file[start..]);
                 // make sure the first trailing byte is not zero so "zeros" is a separate class
                 file[start] |= 1;
             }
